@@ -22,6 +22,7 @@ def run(ctx):
                                                    'FSubAll', 'ok', 'INVARIANT KeventsExact'),
                           ctx.workdir, name='pipe_kevents', timeout=7200))
     obs, info = [], {}
+    ncli = [0]
     for i in range(300 if ctx.quick else 6000):
         w = World(rnd, big_tids=True)
         g = gen.ProgGen(w, rnd, ntids=3, noise=0.1)
@@ -45,6 +46,23 @@ def run(ctx):
             op = 'logs' if logs is not None and rnd.random() < 0.4 else 'kevents'
             r, _ = request(w, p, dump, op)
             reqs.append(r)
+        # the command-line interface must print exactly what the library lists for the same options
+        if i % (5 if ctx.quick else 3) == 0:
+            from .pipeline import cli_lines, api_lines
+            cmd = 'logs' if logs is not None and rnd.random() < 0.6 else 'kevents'
+            cnt = rnd.choice([None, 0, 1, 3, 1000])
+            st = rnd.random() < 0.5
+            rc, got, args = cli_lines(w, dump, cmd, cfg, ctx.workdir, count=cnt, show_tid=st)
+            want = api_lines(w, dump, cmd, cfg, count=cnt, show_tid=st)
+            ncli[0] += 1
+            if rc != 0 or got != want:
+                ctx.violation('C12/cli-differs-from-library/%s' % cmd,
+                              'command line `%s %s` (exit %d) printed %d lines, the library lists %d for the same options; first difference: %r vs %r'
+                              % (cmd, ' '.join(args), rc, len(got), len(want),
+                                 next((a for a, b in zip(got, want) if a != b), got[len(want):len(want) + 1]),
+                                 next((b for a, b in zip(got, want) if a != b), want[len(got):len(got) + 1])),
+                              {'kind': 'pipeline', 'request_index': 0, 'requests': [(cmd, cfg)], 'file_hex': dump.blob.hex(),
+                               'stream': describe(w, dump.stream)})
         oid = 'k%d' % i
         obs.append({'id': oid, 'dump': dump.abstract(), 'reqs': reqs})
         info[oid] = (w, dump, reqs)
@@ -59,6 +77,7 @@ def run(ctx):
                       {'kind': 'pipeline', 'request_index': int(at), 'requests': [(x['op'], x['cfg']) for x in reqs],
                        'file_hex': dump.blob.hex(), 'stream': describe(w, dump.stream)})
     ctx.sample({'requests': [(r['op'], r['cfg'], r['out'][:10]) for r in obs[1]['reqs']]})
-    ctx.extra['code_to_spec'] = {'histories': nv, 'requests': sum(len(o['reqs']) for o in obs)}
+    ctx.extra['code_to_spec'] = {'histories': nv, 'requests': sum(len(o['reqs']) for o in obs),
+                                 'command_line_runs_compared_with_library': ncli[0]}
     ctx.assumptions += ['event identity by unique timestamps; a log in the event listing / an event in the log listing '
                         'is reported as index -1']
